@@ -82,6 +82,11 @@ CHECKS['C20'] = dict(
     text='Every corpus program runs under collection schedules with a tracking global allocator: a dealloc whose layout differs from the allocation is reported; a hook snapshots the allocator after every collection and the checker requires bytes_allocated == sum of reported sizes of all held objects and next_gc == 2 x that; every reported object size is compared with the real block size; the intern invariant is checked; two forced full collections at exit must free nothing the second time. Steady-state loops (one per object kind and error path) run at N and 4N iterations: collector bytes, real live bytes and temporary roots must not grow.',
     note='"Exactly the reachable objects" is observed as no-growth + idempotence; the collector scans whole stack vectors, so slots above the stack top retain their last values (bounded slack). Known findings D32/D33 are keyed on the loop that fails.', ref='DESIGN.md §2 C20')
 
+CHECKS['C17'] = dict(
+    technique='reference-model differential over generated multi-file module trees; enter/exit markers turn exactly-once and ordering into a history check over stdout',
+    text='Random acyclic module graphs (2-8 files, package directories, whole/renamed/selected-symbol imports in random order and multiplicity, exports of let/fn/class, functions over private counters, missing modules, non-exported and private names) are written to disk and run on debug, release and debug under a collection schedule; stdout (module enter/exit markers, received values) and the terminal outcome are compared with a reference module model with snapshot instances.',
+    note=_MODEL_NOTE + ' Cyclic imports are outside the property.', ref='DESIGN.md §2 C17')
+
 PENDING = {}
 
 
